@@ -161,6 +161,7 @@ def install(reg):
     install_ec(reg)
     install_path(reg)
     install_helpers(reg)
+    install_amounts(reg)
 
 
 TRUSTED = ['fastecdsa._ecdsa.sign / verify implement standard secp256k1 ECDSA (uninterpreted: ecdsa_sign_r/s, ecdsa_verify)',
@@ -394,3 +395,50 @@ def install_helpers(reg):
     reg.models[enc.scrypt_hash] = m_scrypt_hash
     reg.models[unicodedata.normalize] = m_normalize
     reg.helper_models = {'to_bytes': (enc.to_bytes, m_to_bytes), 'base58encode': (enc.base58encode, m_base58encode)}
+
+
+# ---------------------------------------------------------------------------------------------------
+# amounts as text: '<decimal numeral> <unit>' with a symbolic numerator
+
+class SAmountText(Sym):
+    """the text  '<num / 10^k as a decimal numeral> <unit>'  for a symbolic non-negative integer num"""
+    pytype = str
+
+    def __init__(self, num, k, unit):
+        self.num, self.k, self.unit = num, k, unit
+
+
+class SDecimalNum(Sym):
+    pytype = str
+
+    def __init__(self, num, k):
+        self.num, self.k = num, k
+
+
+def amount_text(num, k, unit):
+    """native: exact decimal spelling of num / 10^k followed by the unit"""
+    if k == 0:
+        s = str(num)
+    else:
+        s = '%d.%s' % (num // 10 ** k, str(num % 10 ** k).rjust(k, '0'))
+    return (s + ' ' + unit) if unit else s
+
+
+def m_amount_text(ip, args, kwargs):
+    num, k, unit = args
+    if isinstance(num, int):
+        return amount_text(num, k, unit)
+    return SAmountText(int_term(num), k, unit)
+
+
+def amount_method(ip, obj, name, args, kwargs):
+    if name == 'split' and not args:
+        return [SDecimalNum(obj.num, obj.k)] + ([obj.unit] if obj.unit else [])
+    raise Unsupported('str.%s on an amount text' % name)
+
+
+def install_amounts(reg):
+    from pyvc import floats
+    reg.models[amount_text] = m_amount_text
+    reg.sym_methods[SAmountText] = amount_method
+    reg.sym_float[SDecimalNum] = lambda ip, v: floats.from_decimal(ip, v.num, v.k)
